@@ -9,9 +9,17 @@ struct Clause {
 
 #[no_mangle]
 unsafe extern "C" fn cnf_new(clauses: *const Clause, len: usize) -> *mut Cnf {
-    let clauses = slice::from_raw_parts(clauses, len)
+    // `(NULL, 0)` is the usual C spelling of an empty array; `from_raw_parts` rejects NULL
+    unsafe fn c_slice<'a, T>(ptr: *const T, len: usize) -> &'a [T] {
+        if ptr.is_null() || len == 0 {
+            &[]
+        } else {
+            slice::from_raw_parts(ptr, len)
+        }
+    }
+    let clauses = c_slice(clauses, len)
         .iter()
-        .map(|c| slice::from_raw_parts(c.vars, c.len).to_vec())
+        .map(|c| c_slice(c.vars as *const Literal, c.len).to_vec())
         .collect::<Vec<_>>();
     Box::into_raw(Box::new(Cnf::new(&clauses)))
 }
